@@ -44,6 +44,18 @@ impl SharedMemoryLimiter {
         }
     }
 
+    #[cfg(feature = "_verif_hooks")]
+    #[must_use]
+    pub fn verif_current_usage(&self) -> usize {
+        self.current_usage.load(Ordering::Relaxed)
+    }
+
+    #[cfg(feature = "_verif_hooks")]
+    #[must_use]
+    pub fn verif_max(&self) -> usize {
+        self.max
+    }
+
     #[inline]
     pub fn decrease_usage(&self, byte_count: usize) {
         self.current_usage.fetch_sub(byte_count, Ordering::Relaxed);
